@@ -31,7 +31,7 @@ type c09Params struct {
 }
 
 var c09Kinds = []string{"抛出异常", "抛出错", "取样越界", "解析JSON", "除零", "索引越界", "未定义"}
-var c09Sites = []string{"语句", "如果", "每当", "遍历", "构造", "拦截内", "遍历字典", "调用在遍历内"}
+var c09Sites = []string{"语句", "如果", "每当", "遍历", "构造", "拦截内", "遍历字典", "调用在遍历内", "再如条件"}
 
 func c09ClassOf(kind int) string {
 	if kind == 1 {
@@ -83,6 +83,13 @@ func c09Site(site, kind int, defs *[]zn.Stmt) []zn.Stmt {
 		return []zn.Stmt{zn.Iter{Vars: []string{"元"}, Target: zn.List{Items: []zn.Expr{c09N(1), c09N(2)}}, Body: raise}}
 	case 6:
 		return []zn.Stmt{zn.Iter{Vars: []string{"键", "值"}, Target: zn.Dict{Pairs: []zn.DictPair{{Key: "乙", Val: c09N(1)}, {Key: "甲", Val: c09N(2)}}}, Body: raise}}
+	case 8:
+		// raised while the condition of a 再如 branch is evaluated (the 如果 condition was false):
+		// no branch runs, nothing after the statement runs
+		*defs = append(*defs, zn.Func{Name: "发", Body: append(append([]zn.Stmt{}, raise...), zn.Return{Val: c09N(0)})})
+		return []zn.Stmt{zn.If{Cond: c09V("假"), Then: []zn.Stmt{c09Show(c09S("不到"))},
+			Elifs:   []zn.Elif{{Cond: zn.Bin{Op: "==", L: zn.Call{Name: "发"}, R: c09N(0)}, Body: []zn.Stmt{c09Show(c09S("再如体"))}}},
+			HasElse: true, Else: []zn.Stmt{c09Show(c09S("否则体"))}}}
 	case 4:
 		*defs = append(*defs,
 			zn.Class{Name: "造", Props: []zn.Prop{{Name: "P", Val: c09N(1)}}},
@@ -134,6 +141,10 @@ func c09Handlers(level int, p c09Params) []zn.Catch {
 		return []zn.Catch{{Class: other, Body: wrong}}
 	case 3:
 		return []zn.Catch{{Class: other, Body: wrong}, {Class: match, Body: body()}}
+	case 4:
+		// the matching handler comes first: what IT raises leaves the body; the handler written
+		// after it is not asked (a custom exception handled by re-raising 异常, with a 异常 handler behind)
+		return []zn.Catch{{Class: match, Body: body()}, {Class: other, Body: wrong}}
 	}
 	return nil
 }
@@ -430,12 +441,15 @@ func c09Check(p c09Params) *mc.Failure {
 // handler bodies: 0 no 输出 (ends with 显示), 1 输出 v, 2 raises again, 3 no 输出 but ends with a valued expression
 const c09NBodies = 5
 
+// handler placements per level: none, matching, non-matching, non-matching + matching, matching + non-matching
+const c09NHandlers = 5
+
 func c09Space(maxDepth int) (int64, func(k int64) c09Params) {
 	type dim struct{ depth int }
 	var sizes []int64
 	for d := 0; d <= maxDepth; d++ {
 		n := int64(len(c09Kinds) * len(c09Sites) * c09NBodies) // kind site body
-		n *= pow64(4, d+1)                                     // handlers per level
+		n *= pow64(c09NHandlers, d+1)                          // handlers per level
 		if d >= 1 {
 			n *= 4 // obj x mod
 		}
@@ -459,8 +473,8 @@ func c09Space(maxDepth int) (int64, func(k int64) c09Params) {
 		p.Body = int(k % c09NBodies)
 		k /= c09NBodies
 		for l := 0; l <= d; l++ {
-			p.Handler = append(p.Handler, int(k%4))
-			k /= 4
+			p.Handler = append(p.Handler, int(k%c09NHandlers))
+			k /= c09NHandlers
 		}
 		if d >= 1 {
 			p.Obj = k%2 == 1
@@ -475,7 +489,7 @@ func init() {
 	mc.Register(&mc.Check{
 		ID:    "C09",
 		Level: "exploration",
-		Rule:  "E1 exhaustive over the product: raise kind {抛出异常, 抛出 custom type, failing built-in (取样 out of range), failing library call (解析JSON), 1 / 0, index out of range, undefined name} x raise site {statement, in 如果, in 每当, in 遍历 over a list, in 遍历 over a dictionary, in a constructor, inside a handler, statement with every caller's call inside a 遍历 loop of the caller} x call depth 0..D x handler placement per level {none, matching, non-matching, non-matching+matching} x handler body {no 输出, 输出 v, raises again, no 输出 but a valued expression as last statement, calls a method that raises and handles an exception of its own and then goes on using 其} x level 1 plain method / method of an object x innermost level in the main file / in an imported module; every program runs follow-up probes after the handled call: caller locals, caller's 其, a callee local that must be gone (guarded read), a second call of the same chain, final result; on in-memory runs also the VM's call depth and scope depth. Plus, for every raise kind, a method that raises and handles N = 1, 2, 10, 100, 1000, 5000, 20000 times in one run: afterwards ordinary expressions have their values, every block has ended, no call is left open. Oracle: reference interpreter. Distinct by construction; non-trivial = at least one handler present.",
+		Rule:  "E1 exhaustive over the product: raise kind {抛出异常, 抛出 custom type, failing built-in (取样 out of range), failing library call (解析JSON), 1 / 0, index out of range, undefined name} x raise site {statement, in 如果, in 每当, in 遍历 over a list, in 遍历 over a dictionary, in a constructor, inside a handler, statement with every caller's call inside a 遍历 loop of the caller, in the condition of a 再如 branch} x call depth 0..D x handler placement per level {none, matching, non-matching, non-matching+matching, matching+non-matching} x handler body {no 输出, 输出 v, raises again, no 输出 but a valued expression as last statement, calls a method that raises and handles an exception of its own and then goes on using 其} x level 1 plain method / method of an object x innermost level in the main file / in an imported module; every program runs follow-up probes after the handled call: caller locals, caller's 其, a callee local that must be gone (guarded read), a second call of the same chain, final result; on in-memory runs also the VM's call depth and scope depth. Plus, for every raise kind, a method that raises and handles N = 1, 2, 10, 100, 1000, 5000, 20000 times in one run: afterwards ordinary expressions have their values, every block has ended, no call is left open. Oracle: reference interpreter. Distinct by construction; non-trivial = at least one handler present.",
 		Assumptions: []string{
 			"reference semantics from manual ch.4: runtime faults and failing built-ins are exceptions of class 异常; handler value is its 输出 or 空",
 			"the message text of faults / built-in failures is not compared (其内容 is displayed only for 抛出 with a known message)",
